@@ -6,6 +6,7 @@ From DH Require Import Base.Plan Base.Table Model.Chain Proofs.Chain Proofs.Laye
   Model.Vdi Proofs.Vdi Model.Hds Proofs.Hds Model.Vhdx Proofs.Vhdx Proofs.VhdxPartial Proofs.VhdxLayer
   Model.OpenParent Proofs.OpenParent.
 From DH Require Model.Vmdk Proofs.Vmdk Proofs.VmdkLayer.
+From DH Require Proofs.Storage Model.Hdd Proofs.Hdd.
 Open Scope Z_scope.
 
 (* 1. Any chain of layers, of any depth: every byte reads from the topmost layer that holds it,
@@ -68,6 +69,16 @@ Example C07_vmdk_nonvacuous_hosted : Proofs.Vmdk.wf_sparse Proofs.Vmdk.ex_file P
 Proof. exact Proofs.Vmdk.ex_sparse_wf. Qed.
 Example C07_vmdk_nonvacuous_se : Proofs.Vmdk.wf_sparse Proofs.Vmdk.ex_se_file Proofs.Vmdk.ex_se_sparse.
 Proof. exact Proofs.Vmdk.ex_se_wf. Qed.
+
+(* Parallels .hdd split over storages: each storage's snapshot chain stands alone *)
+Theorem C07_hdd_storages_independent :
+  forall hs s0 sector count,
+  Proofs.Hdd.hdd_ok hs -> Proofs.Storage.slaid (Proofs.Hdd.ss_of hs) s0 -> s0 <= sector -> 0 <= count ->
+  sector + count <= Proofs.Storage.s_end (Proofs.Hdd.ss_of hs) s0 ->
+  Model.Hdd.hdd_read hs (sector * 512) (count * 512) =
+  Ok (map (Model.Hdd.hdd_src hs 0) (zseq (sector * 512) (count * 512))).
+Proof. exact Proofs.Hdd.hdd_read_correct. Qed.
+Print Assumptions C07_hdd_storages_independent.
 
 (* any byte-granular reader with an exact pointwise theorem whose parent references stay at the same guest
    offset is a layer (this is how further formats plug into the chain theorem) *)
